@@ -28,7 +28,10 @@ CODES = {
 }
 RULE = ("elections with 1..5 projects and 1..5 voters from the shared tie-rich generator (equal-cost blocks, zero and "
         "fractional costs, budgets on boundaries, duplicated ballots, party lists, nested chains, empty/full ballots), "
-        "a third with all costs equal and few distinct ballots; rules: greedy welfare (all four ballot types, additive "
+        "a third with all costs equal and few distinct ballots; every fourth case from a targeted stream (Equal Shares with "
+        "Cost_Sat / Phragmen, 4-5 projects, tied projects with overlapping but different supporter sets, single-supporter "
+        "cheap projects, budgets one purchase short: the two orders of a tied pair reach the same selection with "
+        "different budgets/loads and then diverge); rules: greedy welfare (all four ballot types, additive "
         "and non-additive measures incl. CC_Sat, Cost_Sqrt_Sat, Cost_Log_Sat), Equal Shares (all four ballot types, "
         "additive measures, binary_sat default), sequential Phragmen (approval); Profile and MultiProfile; feasible "
         "initial allocations; for every election the irresolute call, a second irresolute call under another "
@@ -58,10 +61,60 @@ NSAMPLE = 6
 
 
 def budget(tier):
-    return 2400 if tier == "quick" else 30000
+    return 2000 if tier == "quick" else 30000
+
+
+def gen_overlap(rng, i):
+    """Targeted stream: the state of Equal Shares / Phragmen is the selection PLUS the voters' budgets / loads.
+    Tied projects with overlapping but different supporter sets, bought in the two possible orders, reach the same
+    selection with different budgets (loads); cheap projects with a single supporter (Equal Shares) or a budget that
+    stops one purchase short (Phragmen) then make the continuations diverge.  An irresolute search that identifies
+    states by the set of bought projects (memoisation / pruning) loses outcomes exactly here."""
+    rule = "phragmen" if i % 3 == 0 else "mes"
+    n = rng.choice([4, 5, 5])
+    nv = rng.choice([3, 3, 3, 4])
+    if rule == "phragmen" and rng.random() < 0.5:
+        # equal (or doubled) costs, every voter approves 2-3 projects, budget = a whole number of purchases
+        c = rng.choice([1, 1, 2])
+        costs = [Fraction(c)] * n if rng.random() < 0.6 else [Fraction(rng.choice([c, c, c, 2 * c])) for _ in range(n)]
+        k = rng.choice([3, 3, 4]) if n == 5 else 3
+        b = sum(sorted(costs)[:k], Fraction(0)) + rng.choice([0, 0, Fraction(1, 2)])
+        ballots = [sorted(rng.sample(range(n), rng.choice([2, 2, 3, 3, n]))) for _ in range(nv)]
+    else:
+        nsingle = rng.choice([1, 1, 2]) if n == 5 else 1
+        ncore = n - nsingle
+        sup = [sorted(rng.sample(range(nv), rng.choice([2, 2, 3]))) for _ in range(ncore)]
+        sup += [[rng.randrange(nv)] for _ in range(nsingle)]
+        pool = rng.choice([[2, 3], [2, 3, 3], [2], [3], [3], [3, 3, 4]])
+        costs = [Fraction(rng.choice(pool)) for _ in range(ncore)]
+        spool = rng.choice([[1], [1, 2], [1, Fraction(1, 2)]])
+        costs += [Fraction(rng.choice(spool)) for _ in range(nsingle)]
+        idx = list(range(n))
+        rng.shuffle(idx)
+        costs = [costs[j] for j in idx]
+        sup = [sup[j] for j in idx]
+        tot = sum(costs, Fraction(0))
+        if rule == "phragmen":
+            b = tot - rng.choice([1, Fraction(1, 2), 2])
+        else:
+            b = tot - rng.choice([0, 0, Fraction(1, 2), 2, 2, -1, 1])
+        ballots = [[p for p in range(n) if v in sup[p]] for v in range(nv)]
+    if b <= 0:
+        b = Fraction(1)
+    order = list(range(n))
+    rng.shuffle(order)
+    perm = list(range(n))
+    rng.shuffle(perm)
+    return {"costs": [pb.qs(c) for c in costs], "budget": pb.qs(b), "order": order, "btype": "approval",
+            "ballots": ballots, "multi": rng.random() < 0.3, "rule": rule,
+            "sat": None if rule == "phragmen" else rng.choice(["Cost_Sat", "Cost_Sat", "Cost_Sat", "Cardinality_Sat"]),
+            "init": [], "tb": rng.choice(["lexico", "min_cost", "max_cost", "perm", "app_score"]), "perm": perm,
+            "solver": False, "loads": None, "binary": None, "stream": "overlap"}
 
 
 def gen(rng, i, tier):
+    if i % 4 == 3:
+        return gen_overlap(rng, i // 4)
     rule = ["greedy", "mes", "phragmen"][i % 3]
     btypes = ("approval",) if rule == "phragmen" else ("approval", "approval", "cardinal", "cumulative", "ordinal")
     n = rng.choice([1, 2, 3, 3, 4, 4, 4, 5, 5, 5])
@@ -246,7 +299,8 @@ def stats(cases, obs):
          "multiprofile": 0, "multiplicity_ge_2": 0, "nonempty_init": 0, "equal_costs": 0, "zero_cost": 0,
          "fractional_cost": 0, "non_additive_sat": 0, "float_valued_sat": 0, "resolute_runs": 0,
          "several_outcomes_by_rule": {}, "shipped_rule_outcomes_differ": 0, "model_compared": 0,
-         "outcomes_of_different_size": 0, "phragmen_initial_loads": 0, "mes_binary_sat": {}}
+         "outcomes_of_different_size": 0, "phragmen_initial_loads": 0, "mes_binary_sat": {},
+         "overlap_stream": {"mes": 0, "phragmen": 0, "mes_several_outcomes": 0, "phragmen_several_outcomes": 0}}
 
     def inc(h, k):
         h[str(k)] = h.get(str(k), 0) + 1
@@ -275,6 +329,9 @@ def stats(cases, obs):
         d["model_compared"] += not (c["rule"] == "greedy" and c["sat"] in FLOAT_SATS)
         d["outcomes_of_different_size"] += len({len(w) for w in o["irr"]}) > 1
         d["phragmen_initial_loads"] += c.get("loads") is not None
+        if c.get("stream") == "overlap":
+            d["overlap_stream"][c["rule"]] += 1
+            d["overlap_stream"][c["rule"] + "_several_outcomes"] += len(o["irr"]) > 1
         if c["rule"] == "mes":
             inc(d["mes_binary_sat"], c.get("binary"))
     return d
